@@ -50,6 +50,15 @@ def _real_guard(lp: ast.For):
     return None
 
 
+def _keeps_shift(f: Func, call: ast.Call) -> bool:
+    """the third result of _compress_rank (the constant that keeps the value unchanged) is bound to a name that is used"""
+    par = f.module.parent.get(call)
+    if isinstance(par, ast.Assign) and isinstance(par.targets[0], ast.Tuple) and len(par.targets[0].elts) == 3 and isinstance(par.targets[0].elts[2], ast.Name):
+        nm = par.targets[0].elts[2].id
+        return nm != "_" and any(isinstance(y, ast.Name) and y.id == nm and isinstance(y.ctx, ast.Load) for y in ast.walk(f.node))
+    return True  # result handed on whole: assume it is kept
+
+
 def _numbers_into_array_workers(prog: Program, col: Collector, refs: Refs):
     """align_tensors hands a Number back as a Python scalar.  A method of Gaussian that reads array attributes (.shape / .reshape) of
     aligned values must therefore not receive Numbers: either the classification that feeds it admits Tensors only, or the worker
@@ -328,6 +337,8 @@ def run(prog: Program, col: Collector, tier: str, refs: Optional[Refs] = None, c
                     col.ok(construct, "QR route (valid for every over-complete factor)", g_.loc(c_))
                 elif g_.fq in ALLOWED_CHOLESKY:
                     col.ok(construct, "Cholesky route in " + g_.fq + ": " + ALLOWED_CHOLESKY[g_.fq], g_.loc(c_))
+                elif isinstance(kw, ast.Constant) and kw.value is True and not _keeps_shift(g_, c_):
+                    col.unresolved(construct, "Cholesky route at a site outside the who-may-call table that does not keep the shift (not a value-preserving compression)", g_.loc(c_))
                 elif isinstance(kw, ast.Constant) and kw.value is True:
                     col.violation(construct, "rank compression here must preserve the quadratic form of ANY over-complete factor, but assume_full_rank=True takes the Cholesky route, "
                                   "which needs prec_sqrt prec_sqrt' to be positive definite: a wide factor with singular precision (several observations of one coordinate) fails or "
